@@ -24,7 +24,8 @@ META = {
         "(template of TRS.pretty_twprge with its defaults, 'Sec NN: ') is in "
         "the reader's language and groups consecutive runs in list order; the "
         "connector-word tables used to filter sections / clean descriptions "
-        "are word-anchored; a dictated layout reaches every chunk parser."),
+        "are word-anchored; a dictated layout reaches every chunk parser."
+        ' Also: the stand-alone through_regex is case-closed w.r.t. the regexes that embed it; every Twp/Rge twprge_regex can capture is a valid TRS; layout if/elif chains without else are exhaustive; helpers that are handed the layout are included in the dispatch table check.'),
     'families': ['TBL', 'RX-LANG', 'ORDER'],
 }
 
